@@ -8,6 +8,7 @@ V = os.path.dirname(os.path.dirname(os.path.abspath(__file__)))
 roots = sys.argv[1:] or ["/repo"]
 funcs, names = set(), set()
 arity = {}
+classes = set()
 
 
 def units(root):
@@ -41,6 +42,7 @@ for root in roots:
                 funcs.add("%s.%s" % (mod, st.name))
                 arity["%s.%s" % (mod, st.name)] = len(st.args.posonlyargs) + len(st.args.args) + len(st.args.kwonlyargs)
             elif isinstance(st, ast.ClassDef):
+                classes.add("%s.%s" % (mod, st.name))
                 for s2 in st.body:
                     if isinstance(s2, (ast.FunctionDef, ast.AsyncFunctionDef)):
                         funcs.add("%s.%s.%s" % (mod, st.name, s2.name))
@@ -51,5 +53,5 @@ for root in roots:
             for t2 in (st.targets if isinstance(st, ast.Assign) else [st.target] if isinstance(st, ast.AnnAssign) else []):
                 if isinstance(t2, ast.Name):
                     names.add("%s.%s" % (mod, t2.id))
-json.dump({"roots": roots, "functions": sorted(funcs), "names": sorted(names), "arity": dict(sorted(arity.items()))}, open(os.path.join(V, "sa", "known_functions.json"), "w"), indent=0)
+json.dump({"roots": roots, "functions": sorted(funcs), "names": sorted(names), "arity": dict(sorted(arity.items())), "classes": sorted(classes)}, open(os.path.join(V, "sa", "known_functions.json"), "w"), indent=0)
 print("known: %d functions, %d names" % (len(funcs), len(names)))
